@@ -153,6 +153,32 @@ TUpdKey ==
   /\ fps' = fps \cup NewFps
   /\ UNCHANGED <<G, cfg>> /\ l' = l + 1
 
+\* ---- interactive (private-coin) proof of knowledge of a key share [Schnorr]: m1 = g^v, challenge c, m2 = v + c x mod q;
+\* the verifier accepts iff m1 is a group element, |m2| < q (refused, not reduced) and m1 = g^m2 key^-c.
+\* The challenge is the verifier's only coin; the driver fixes it first, so prover and verifier run one after the other.
+IKeyAccept(key, c, msg) ==
+  /\ Len(msg) >= 2 /\ IsMember(msg[1]) /\ AbsBelowQ(msg[2])
+  /\ (c = 0 \/ ResP(key) # 0)                     \* key^c must be invertible
+  /\ msg[1].sm = Mul(G, Exp(G, G.g, Val(msg[2])), IF c = 0 THEN 1 ELSE Exp(G, ResP(key), 0 - c))
+TIKey ==
+  /\ IsEv("IKey")
+  /\ LET prover == pl[Ev.from]  pq == SelectSeq(Ev.pcoins, LAMBDA k : k.k = "q") IN
+     \* the prover's two messages are what the protocol prescribes for its coin v and the challenge (C03, C05)
+     /\ Ev.pres /\ Len(pq) = 1 /\ Len(Ev.honest) = 2 /\ Ev.x = prover.x
+     /\ Ev.honest[1].sg >= 0 /\ Ev.honest[1].sm = Exp(G, G.g, pq[1].v)
+     /\ Ev.honest[2].sg >= 0 /\ Ev.honest[2].sm = (pq[1].v + Ev.c * prover.x) % G.q
+     /\ Ev.c >= 0 /\ Ev.c < G.q
+  /\ IF Exc THEN Len(Ev.msg) < 2 /\ Ev.hc = pl[Ev.i].h /\ Ev.nk = Cardinality(pl[Ev.i].hj)
+     ELSE LET acc == IKeyAccept(Ev.key, Ev.c, Ev.msg) IN
+          /\ Ev.res = acc
+          \* the verifier drew exactly one coin, the challenge, and sent it once it had a group element m1
+          /\ (Len(Ev.msg) >= 1 /\ IsMember(Ev.msg[1])) => (Len(QDraws) = 1 /\ QDraws[1] = Ev.c /\ Len(Ev.vsent) = 1 /\ Ev.vsent[1].sm = Ev.c)
+          /\ ~(Len(Ev.msg) >= 1 /\ IsMember(Ev.msg[1])) => (Len(QDraws) = 0 /\ Len(Ev.vsent) = 0)
+          \* C03: the unchanged session is accepted
+          /\ (Ev.mut = "none" \/ ~Ev.applied) => acc
+          /\ Ev.hc = pl[Ev.i].h /\ Ev.nk = Cardinality(pl[Ev.i].hj)      \* the proof does not touch the key state
+  /\ UNCHANGED <<G, cfg, pl, fps>> /\ l' = l + 1
+
 TRemKey ==
   /\ IsEv("RemKey")
   /\ IF Exc THEN TooShort(3) /\ pl' = pl ELSE
@@ -399,7 +425,7 @@ TCC ==
 
 TStack == IsEv("Stack") /\ NoExc /\ UNCHANGED <<G, cfg, pl, fps>> /\ l' = l + 1
 
-TNext == TReset \/ TGenKey \/ TPubKey \/ TUpdKey \/ TRemKey \/ TFin \/ TOpen \/ TPriv \/ TMask \/ TPMask \/ TPPriv
+TNext == TReset \/ TGenKey \/ TPubKey \/ TUpdKey \/ TIKey \/ TRemKey \/ TFin \/ TOpen \/ TPriv \/ TMask \/ TPMask \/ TPPriv
          \/ TVMask \/ TVPriv \/ TSelf \/ TPSec \/ TVSec \/ TType \/ TSSec \/ TMix \/ TGlue \/ TStack
          \/ TSubst \/ TImportSS \/ TCC
 TSpec == TInit /\ [][TNext]_vars
